@@ -154,7 +154,7 @@ Definition as_query_entry (v : val) : option (str * bool) :=
   match v with VList [VStr u; VInt b] => Some (u, negb (Z.eqb b 0)) | _ => None end.
 Definition decode_scase (v : val) : option scase :=
   match v with
-  | VList [rs; VStr inv; qs; hs; rd] =>
+  | VList (rs :: VStr inv :: qs :: hs :: rd :: _) =>     (* a sixth element (how the harness staged the requests) is not the model's business *)
       match as_records rs, as_list_of as_query_entry qs, as_list_of (as_opt as_str) hs, as_list_of (as_opt as_strs) rd with
       | Some rs', Some qs', Some hs', Some rd' =>
           Some {| sc_recs := rs'; sc_invalid := inv; sc_queries := qs'; sc_headers := hs'; sc_renderings := rd' |}
